@@ -248,7 +248,12 @@ class Gen:
         # keep the display inside replay's 1 KiB text buffers (their overflow is a separate witness)
         while self.display_len(c) > 900 and c["specs"]:
             self.drop_last()
-        c["xmm0"] = r.choice([0, 0x3ff8000000000000, 0x400921fb54442d18, r.getrandbits(64)])
+        x = r.choice([0, 0x3ff8000000000000, 0x400921fb54442d18, 0x8000000000000000, 1, r.getrandbits(64), r.getrandbits(64)])
+        if (x >> 52) & 0x7ff == 0x7ff:
+            x &= ~(1 << 62)              # no NaN / infinity: the logging scripts print numbers, not bits
+        if (x >> 23) & 0xff == 0xff:
+            x &= ~(1 << 30)              # ... nor in the low half, which is what retval/f32 takes
+        c["xmm0"] = x
         finish_slots(c)
         if profile == "multi" or r.random() < 0.15:
             self.multi()
@@ -679,6 +684,91 @@ REGRESSIONS = [witness_len98, witness_c64, witness_overflow, witness_overflow_ma
 WITNESSES = [("auto-neg32", witness_neg32)]
 
 
+# ================================================================== logging scripts (what a script receives, with its type)
+LOG_PY = r'''
+def fmt(v):
+    if v is None: return "N"
+    if isinstance(v, bool): return "B%d" % v
+    if isinstance(v, int): return "I%d" % v
+    if isinstance(v, float): return "F" + v.hex()
+    if isinstance(v, str): return "S" + v.encode("utf-8", "surrogateescape").hex()
+    return "?" + type(v).__name__
+def uftrace_entry(ctx):
+    a = ctx.get("args")
+    print("E %s %d %s" % (ctx["name"], ctx["depth"], "-" if a is None else " ".join([type(a).__name__] + [fmt(x) for x in a])), flush=True)
+def uftrace_exit(ctx):
+    print("X %s %d %s" % (ctx["name"], ctx["depth"], "value " + fmt(ctx["retval"]) if "retval" in ctx else "-"), flush=True)
+'''
+LOG_LUA = r'''
+local function fmt(v)
+  local t = type(v)
+  if t == "nil" then return "N" end
+  if t == "number" then return "D" .. string.format("%.17g", v) end
+  if t == "string" then return "S" .. (v:gsub(".", function(c) return string.format("%02x", string.byte(c)) end)) end
+  return "?" .. t
+end
+function uftrace_entry(ctx)
+  local a = ctx["args"]
+  local s = "-"
+  if a ~= nil then
+    s = type(a)
+    local n = 0
+    for k, _ in pairs(a) do if k > n then n = k end end
+    for i = 1, n do s = s .. " " .. fmt(a[i]) end
+  end
+  print(string.format("E %s %d %s", ctx["name"], ctx["depth"], s))
+end
+function uftrace_exit(ctx)
+  local r = ctx["retval"]
+  if r == nil then print(string.format("X %s %d -", ctx["name"], ctx["depth"]))
+  else print(string.format("X %s %d value %s", ctx["name"], ctx["depth"], fmt(r))) end
+end
+'''
+
+
+def script_token(tok, spec):
+    """one logged value -> observed item ("int", z) | ("flt", size, bits) | ("str", bytes) | ("invalid",) | ("none",)"""
+    k, body = tok[:1], tok[1:]
+    if k == "N":
+        return ("none",)
+    if k in ("I", "B"):
+        return ("int", int(body))
+    if k == "S":
+        b = bytes.fromhex(body)
+        return ("invalid",) if b == b"<invalid value>" else ("str", b)
+    if k in ("F", "D"):
+        d = float.fromhex(body) if k == "F" else float(body)
+        isflt = spec is not None and FMTS[spec["fmt"]] == "FFloat"
+        if not isflt and k == "D" and d == int(d):
+            return ("int", int(d))                      # a Lua number that holds an integer
+        size = 4 if isflt and spec["size"] == 4 else 8       # double and long double arrive as a double
+        try:
+            bits = int.from_bytes(struct.pack("<f", d), "little") if size == 4 else \
+                int.from_bytes(struct.pack("<d", d), "little")
+        except OverflowError:
+            bits = 0x7f800000
+        return ("flt", size, bits)
+    return ("none",)
+
+
+def coq_oitem(o):
+    if o[0] == "int":
+        return "OInt (%d)%%Z" % o[1]
+    if o[0] == "flt":
+        return "OFlt %d %s" % (o[1], num(o[2]))
+    if o[0] == "str":
+        return "OStr %s" % blist(o[1])
+    return "OInvalid" if o[0] == "invalid" else "ONone"
+
+
+def coq_sobs(so):
+    if so is None:
+        return "None"
+    def opt(x):
+        return "None" if x is None else "Some [%s]" % "; ".join(coq_oitem(o) for o in x)
+    return "Some {| so_args := %s; so_ret := %s |}" % (opt(so["args"]), opt(so["ret"]))
+
+
 # ================================================================== running the implementation
 class Impl:
     def __init__(self, ctx):
@@ -869,7 +959,46 @@ class Impl:
         # dump: raw values per call
         p = subprocess.run(["timeout", "60", exe, "dump", "--no-pager", "-d", d], capture_output=True, timeout=90)
         self.parse_dump(cases, p.stdout)
+        # the script readers on the same stream
+        self.script_ok = {}
+        for lang, text in (("py", LOG_PY), ("lua", LOG_LUA)):
+            sc = os.path.join(self.ctx.scratch, "c09log." + lang)
+            if not os.path.exists(sc):
+                open(sc, "w").write(text)
+            p = subprocess.run(["timeout", "60", exe, "script", "--no-pager", "-S", sc, "-d", d], capture_output=True,
+                               timeout=90)
+            self.script_ok[lang] = self.parse_script(cases, lang, p)
         return ok
+
+    def parse_script(self, cases, lang, p):
+        """c["obs"][lang] = {"args": [items] | None, "ret": [item] | None} per call, or None where the callbacks of
+        the call are missing / out of order (then self.last_script keeps the output)"""
+        lines = [l for l in p.stdout.decode("latin-1").split("\n") if l[:2] in ("E ", "X ")]
+        head = ["E fn00 0 -", "E fn00 1 -", "X fn00 1 -", "X fn00 0 -"]
+        good = p.returncode == 0 and lines[:4] == head
+        cur = 4
+        for c in cases:
+            c["obs"][lang] = None
+            if not good:
+                continue
+            name = "fn%02d" % c["k"]
+            blk = lines[cur:cur + 4]
+            if len(blk) < 4 or not blk[0].startswith("E %s 0 " % name) or blk[1:3] != ["E fn00 1 -", "X fn00 1 -"] \
+                    or not blk[3].startswith("X %s 0 " % name):
+                good = False
+                continue
+            a = blk[0].split(" ")[3:]
+            r = blk[3].split(" ")[3:]
+            args = None if a == ["-"] else [script_token(t, c["pspecs"][i] if i < len(c["pspecs"]) else None)
+                                            for i, t in enumerate(a[1:])]
+            ret = None if r == ["-"] else [script_token(t, c["prspecs"][0] if c["prspecs"] else None) for t in r[1:2]]
+            c["obs"][lang] = {"args": args, "ret": ret}
+            cur += 4
+        if good and lines[cur:] != ["E fn00 0 -", "X fn00 0 -"]:
+            good = False
+        if not good:
+            self.last_script = (lang, p.returncode, p.stdout[-1500:], p.stderr[-600:])
+        return good
 
     def parse_dump(self, cases, out):
         """per call: list of (kind, bits, value) for the scalar args / retval as `uftrace dump` prints them"""
@@ -961,7 +1090,7 @@ def coq_aval(c, a):
     if a[0] == "bad":
         return "ABad %s" % num(c["env"]["bad"])
     if a[0] == "sym":
-        return "ASym %s" % nlist(b"fn%02d" % (a[1] % 32))
+        return "ASym %s %s" % (num(c["env"]["f0"] + 256 * (a[1] % 32)), nlist(b"fn%02d" % (a[1] % 32)))
     if a[0] == "flt":
         return "AFlt %d" % a[1]
     return "AStruct"
@@ -1008,9 +1137,9 @@ def coq_case(c):
               len(o["img_entry"]), len(o["img_exit"]), blist(o["stream"]),
               blist(o["args_text"] if o["args_text"] is not None else b"\0?"),
               blist(o["ret_text"] if o["ret_text"] is not None else b"\0?")))
-    return ("(let i := %s in {| t_call := %s; t_obs := %s; t_aargs := [%s]; t_aret := [%s] |})"
+    return ("(let i := %s in {| t_call := %s; t_obs := %s; t_aargs := [%s]; t_aret := [%s]; t_py := %s; t_lua := %s |})"
             % (inp, call, obs, "; ".join(coq_aval(c, a) for a in c["actual"]),
-               "; ".join(coq_aval(c, a) for a in c["ractual"])))
+               "; ".join(coq_aval(c, a) for a in c["ractual"]), coq_sobs(o.get("py")), coq_sobs(o.get("lua"))))
 
 
 PRE = """From Coq Require Import NArith ZArith List Bool.
@@ -1031,13 +1160,15 @@ def evaluate(ctx, batches, name="cases"):
         defs.append("Definition cases%d : list tcase := [\n%s\n]." % (bi, ";\n".join(coq_case(c) for c in cases)))
         evals.append(("mismatch%d" % bi, "bad_indices (t_agrees syms%d) cases%d 0" % (bi, bi)))
         evals.append(("violations%d" % bi, "bad_indices t_ok cases%d 0" % bi))
+        evals.append(("sviolations%d" % bi, "bad_indices t_ok_script cases%d 0" % bi))
     res = coq.run_cases(ctx, name, PRE, "\n".join(defs), evals)
     if res is None:
         return None
-    out = {"mismatch": [], "violations": []}
+    out = {"mismatch": [], "violations": [], "script": set()}
     for bi in range(len(batches)):
         out["mismatch"] += [(bi, i) for i in coq.parse_nat_list(res["mismatch%d" % bi])]
         out["violations"] += [(bi, i) for i in coq.parse_nat_list(res["violations%d" % bi])]
+        out["script"] |= set((bi, i) for i in coq.parse_nat_list(res["sviolations%d" % bi]))
     return out
 
 
@@ -1137,10 +1268,12 @@ class E2EGen:
             lit = "(%s)%d%s" % (ct, v, "ULL" if not signed and bits == 64 else ("LL" if bits == 64 else ""))
             if v == lo and signed and bits >= 32:
                 lit = "(%s)(%d%s - 1)" % (ct, v + 1, "LL" if bits == 64 else "")
-            return lit, ["txt", int_cands(v, bits)]
+            return lit, ["txt", int_cands(v, bits), ["ints", sorted(set(int(x, 0) if not x.startswith("0") or x == "0" or
+                                                                       x.startswith("0x") else int(x, 8)
+                                                                       for x in int_cands(v, bits)))]]
         if kind == "char":
             ch = r.choice("xyzAZ09 _-+")
-            return "'%s'" % ch, ["txt", ["'%s'" % ch]]
+            return "'%s'" % ch, ["txt", ["'%s'" % ch], ["str", ch]]
         if kind == "str":
             if r.random() < 0.1:
                 return "(const char *)0", ["null"]
@@ -1150,12 +1283,13 @@ class E2EGen:
         if kind == "flt":
             v = r.choice([0.0, 1.5, -2.25, 1024.125, -0.5, 3.25, 100000.0, r.randrange(-4000, 4000) / 8.0])
             sfx = {32: "f", 64: "", 80: "L"}[bits]
-            return "%r%s" % (v, sfx), ["txt", ["%f" % v]]
+            fb = int.from_bytes(struct.pack("<f", v), "little") if bits == 32 else int.from_bytes(struct.pack("<d", v), "little")
+            return "%r%s" % (v, sfx), ["txt", ["%f" % v], ["flt", 4 if bits == 32 else 8, fb]]
         if kind == "struct":
             return ("(struct big){1, 2, 3}" if "big" in ct else "(struct pair){7, 8}"), ["struct"]
         if kind == "nullptr":
-            return "(int *)0", ["txt", ["0"]]
-        return "g0", ["txt", ["&g0"]]
+            return "(int *)0", ["txt", ["0"], ["ints", [0]]]
+        return "g0", ["txt", ["&g0"], ["anyint"]]
 
     def function(self, k, types=None):
         r = self.rng
@@ -1195,7 +1329,93 @@ def e2e_aval(a):
     return "AStruct"
 
 
-def e2e_run(ctx, impl, funcs, tag, extra_opts=(), judge_ret=True):
+def e2e_saval(a, record_time):
+    """what a script must receive for the C-level value a"""
+    if a[0] == "txt":
+        k = a[2]
+        if k[0] == "ints":
+            return "AScr [%s] [] []" % "; ".join("(%d)%%Z" % x for x in k[1])
+        if k[0] == "str":
+            return "AScr [] [%s] []" % blist(k[1].encode())
+        if k[0] == "flt":
+            # libmcount cannot touch floating-point values: listed finding script-record-float
+            return ("AScr [] [%s] []" % blist(b"<float>")) if record_time else "AScr [] [] [(%d, %s)]" % (k[1], num(k[2]))
+        return "AAnyInt"
+    return e2e_aval(a)
+
+
+def parse_e2e_script(out, funcs, specs_of):
+    """lines of the logging script -> {name: {"args": [...] | None, "ret": [...] | None}} for the calls of depth 1"""
+    res = {}
+    for line in out.decode("latin-1").split("\n"):
+        k = line.split(" ")
+        if len(k) < 4 or k[0] not in ("E", "X") or k[2] != "1" or k[1] not in specs_of:
+            continue
+        pa, pr = specs_of[k[1]]
+        d = res.setdefault(k[1], {"args": None, "ret": None, "n": 0})
+        if k[0] == "E":
+            d["n"] += 1
+            d["args"] = None if k[3] == "-" else [script_token(t, pa[i] if i < len(pa) else None) for i, t in enumerate(k[4:])]
+        else:
+            d["ret"] = None if k[3] == "-" else [script_token(t, pr[0] if pr else None) for t in k[4:5]]
+    return res
+
+
+def e2e_scripts(ctx, impl, funcs, items, d, data, exe, tag):
+    """what scripts receive for the calls of a traced program: at analysis time (uftrace script, python and lua, on
+    the recorded data) and at record time (uftrace record -S, python and lua).  returns [(func, problem)]"""
+    uft = os.path.join(impl.objdir, "uftrace")
+    specs_of = {f["name"]: (pa, pr) for f, pa, pr in items}
+    runs = []
+    for lang, text in (("py", LOG_PY), ("lua", LOG_LUA)):
+        sc = os.path.join(d, "log." + lang)
+        open(sc, "w").write(text)
+        p = subprocess.run(["timeout", "60", uft, "script", "--no-pager", "-S", sc, "-d", data], capture_output=True, timeout=90)
+        runs.append((lang, False, p))
+        p = subprocess.run(["timeout", "60", uft, "record", "--no-pager", "--no-event", "--libmcount-path=" + impl.objdir,
+                            "-a", "-S", sc, "-d", data + "-" + lang, exe], capture_output=True, timeout=90, cwd=d)
+        runs.append((lang, True, p))
+    # ... and with a time filter that keeps every record out of the data: the script still gets every call, and the
+    # return value it sees must be the function's, not what was left in the buffer
+    p = subprocess.run(["timeout", "60", uft, "record", "--no-pager", "--no-event", "--libmcount-path=" + impl.objdir,
+                        "-a", "-t", "1s", "-S", os.path.join(d, "log.py"), "-d", data + "-t", exe],
+                       capture_output=True, timeout=90, cwd=d)
+    runs.append(("py", True, p))
+    out, terms, index = [], [], []
+    for lang, rec, p in runs:
+        if p.returncode != 0:
+            out.append((items[0][0], "uftrace %s -S log.%s fails: rc=%d %s" % ("record" if rec else "script", lang, p.returncode,
+                                                                         p.stderr[-300:].decode("latin-1"))))
+            continue
+        seen = parse_e2e_script(p.stdout, funcs, specs_of)
+        for f, pa, pr in items:
+            o = seen.get(f["name"])
+            if o is None or o["n"] != 1:
+                out.append((f, "%s-time %s script: no (or repeated) entry callback for %s" % ("record" if rec else "analysis", lang, f["name"])))
+                continue
+            def opt(x):
+                return "None" if x is None else "Some [%s]" % "; ".join(coq_oitem(i) for i in x)
+            terms.append("(%s, [%s], [%s], %s, %s)" % (
+                "Py" if lang == "py" else "Lua",
+                "; ".join("(%s, %s)" % (coq_spec(sp), e2e_saval(a, rec)) for sp, a in zip(pa, f["actual"])),
+                "; ".join("(%s, %s)" % (coq_spec(sp), e2e_saval(f["ractual"], rec)) for sp in pr[:1]),
+                opt(o["args"]), opt(o["ret"])))
+            index.append((f, lang, rec, o))
+            if rec and any(i == ("str", b"<float>") for i in (o["args"] or []) + (o["ret"] or [])):
+                impl.record_float_placeholder = {"function": f["src"], "call": f["call"].strip(), "lang": lang,
+                                                 "args": repr(o["args"]), "retval": repr(o["ret"])}
+    if terms:
+        defs = ("Definition items : list (lang * list (spec * aval) * list (spec * aval) * option (list oitem) * "
+                "option (list oitem)) := [\n%s\n].\n" % ";\n".join(terms))
+        res = coq.run_cases(ctx, "e2es_" + re.sub(r"\W", "_", tag), PRE, defs, [
+            ("bad", "bad_indices (fun x => match x with (l, a, r, oa, or) => ok_script_args l a oa && ok_script_ret l r or end) items 0")])
+        for i in (coq.parse_nat_list(res["bad"]) if res else []):
+            f, lang, rec, o = index[i]
+            out.append((f, "%s-time %s script receives args=%r retval=%r" % ("record" if rec else "analysis", lang, o["args"], o["ret"])))
+    return out
+
+
+def e2e_run(ctx, impl, funcs, tag, extra_opts=(), judge_ret=True, scripts=False):
     """compile, record with --auto-args (+ extra -A/-R options), replay; returns list of (func, problem or None).
     judge_ret=False: the extra options put further return value specs in front, only the arguments and the
     completeness of the call sequence are judged"""
@@ -1267,6 +1487,8 @@ def e2e_run(ctx, impl, funcs, tag, extra_opts=(), judge_ret=True):
         bad = set(coq.parse_nat_list(res["bad"])) if res else set()
         for i, (f, pa, pr) in enumerate(items):
             out.append((f, ("replay shows %s%s" % f["shown"]) if i in bad else None))
+        if scripts:
+            out += e2e_scripts(ctx, impl, funcs, items, d, data, exe, tag)
     return out
 
 
@@ -1316,7 +1538,8 @@ def e2e(ctx, impl):
         both = ["-R", "^g[0-9]+$@retval/f", "-R", "^g[1-9][0-9]*$@retval/x"]
         for variant, opts, judge_ret in (("auto-args", [], True), ("auto-args+explicit-retvals", both, False)):
             nbad = 0
-            for f, problem in e2e_run(ctx, impl, funcs, "p%d%s" % (rnd, "x" if opts else ""), opts, judge_ret):
+            for f, problem in e2e_run(ctx, impl, funcs, "p%d%s" % (rnd, "x" if opts else ""), opts, judge_ret,
+                                      scripts=not opts):
                 if f is None:
                     ctx.broken("end-to-end run failed: " + problem)
                     continue
@@ -1330,6 +1553,11 @@ def e2e(ctx, impl):
                                       {"mode": "e2e", "program": e2e_program(funcs), "function": f["name"],
                                        "record_options": ["-a"] + opts, "specs": f.get("specs"),
                                        "rspecs": f.get("rspecs"), "shown": f.get("shown")}, True)
+    ph = getattr(impl, "record_float_placeholder", None)
+    found.append(("script-record-float",
+                  "at record time (uftrace record -S) a floating-point argument or return value is not available to the "
+                  "script: ctx[\"args\"] carries the placeholder \"<float>\" instead of the value",
+                  ph is not None, {"mode": "e2e-witness", "witness": "script-record-float", "observed": ph}))
     return found
 
 
@@ -1342,14 +1570,17 @@ def common_meta(ctx):
                 "non-ASCII strings, std::string, pointers to functions, structs by register/stack, %reg and %stack "
                 "addressing, payload totals 1008..1032 around the 1020-byte limit; plus regression cases of the repaired "
                 "defects; plus end-to-end cases: one function of a generated, compiled C program traced with "
-                "`record -a` (specs from DWARF); distinct = distinct (specs, values); non-trivial = at least one value "
-                "is captured")
+                "`record -a` (specs from DWARF); every in-process stream is also read by `uftrace script -S` with a "
+                "python and a lua logging script (typed ctx[\"args\"] / ctx[\"retval\"]), every end-to-end program "
+                "also by `uftrace script` and `uftrace record -S` in both languages; distinct = distinct (specs, "
+                "values); non-trivial = at least one value is captured")
     ctx.trusted = [
         "Coq 8.16.1 kernel incl. vm_compute (no native_compute); axioms: see print_assumptions",
         "hand-written model coq/theories/C09/Model.v (save_to_argbuf, x86_64 mcount_arch_get_arg/retval, payload part "
         "of record_ret_stack, read_task_arg(s), get_argspec_string) and its executable checker ok_call",
         "generated constants coq/theories/Gen/Consts.v (ARGBUF_SIZE, ARG_STR_MAX, RECORD_MAGIC, record bit layout)",
-        "harness/c/mc_harness.c (+ ops ARGFILL/ARGDUMP/ADDR/SADDR/OBJ/DUMPRAW), harness/c/c09_harness.c, vf/mch.py, "
+        "harness/c/mc_harness.c (+ ops ARGFILL/ARGDUMP/ADDR/SADDR/OBJ/DUMPRAW/SPECS/XRF), harness/c/c09_harness.c, vf/mch.py, "
+        "the python/lua logging scripts of props/c09.py and their line parser, "
         "vf/datadir.py (info/task/map/sym files of the synthetic directory), props/c09.py (generator, text splitting "
         "of the replay output at the nested sentinel call)",
     ]
@@ -1359,7 +1590,10 @@ def common_meta(ctx):
         "readable memory; the stack words of the caller are readable",
         "floating point text (\"%#f\"), x87 long double return values, enum names and --auto-args/DWARF specs are not "
         "modelled; replay's 1 KiB text buffer is not exceeded (display < 900 characters)",
-        "duplicate specs for the same argument (merged by add_arg_spec) are not generated",
+        "scripts: 'matching' = integer-class values congruent modulo 2^(8*size) (signedness is not judged; a Lua number "
+        "above 2^53 is the nearest double), floats bit-identical at the spec's size, strings byte-identical (Python: "
+        "\"<invalid value>\" exactly when the bytes are not UTF-8), char a one-byte string, struct the text "
+        "\"struct: NAME{}\"; retval = the first return value spec; at record time floats are the placeholder \"<float>\"",
     ]
 
 
@@ -1384,7 +1618,8 @@ def observed(c):
             "stream": o["stream"].hex(),
             "replay_args": None if o["args_text"] is None else o["args_text"].decode("latin-1"),
             "replay_ret": None if o["ret_text"] is None else o["ret_text"].decode("latin-1"),
-            "dump_args": o.get("dump_args"), "dump_ret": o.get("dump_ret")}
+            "dump_args": o.get("dump_args"), "dump_ret": o.get("dump_ret"),
+            "script_py": repr(o.get("py")), "script_lua": repr(o.get("lua"))}
 
 
 def run_batch_checked(ctx, impl, b):
@@ -1426,7 +1661,31 @@ def run_cases_through(ctx, impl, cases, name):
                               {"mode": "resync", "case": public(bad), "batch": [public(c) for c in b],
                                "replay_rc": rc, "replay_output_tail": out[-1500:].decode("latin-1"),
                                "replay_stderr": err[-500:].decode("latin-1")}, True)
-    res = evaluate(ctx, batches, name) if batches else {"mismatch": [], "violations": []}
+        elif not all(impl.script_ok.values()):
+            lang, rc, out, err = impl.last_script
+            bad = next((c for c in b if c["obs"].get(lang) is None), b[0])
+            if len(b) > 1:
+                # find the call that upsets the script reader: run the calls of the batch one by one
+                for c1 in b:
+                    c2 = json.loads(json.dumps(public(c1)))
+                    c2["strings"] = {int(k): v for k, v in c2["strings"].items()}
+                    c2["objs"] = {int(k): v for k, v in c2["objs"].items()}
+                    try:
+                        impl.run_batch([c2])
+                    except (RuntimeError, subprocess.TimeoutExpired):
+                        continue
+                    if not all(impl.script_ok.values()):
+                        bad = c1
+                        lang, rc, out, err = impl.last_script
+                        break
+            ctx.extra["script_failures"] = ctx.extra.get("script_failures", 0) + 1
+            if ctx.extra["script_failures"] <= 3:
+                ctx.violation("C09: `uftrace script` (%s) %s on the recorded arguments"
+                              % (lang, "crashes (rc=%d)" % rc if rc not in (0, 1) else
+                                 "does not deliver the callbacks of every call in order"),
+                              {"mode": "script", "lang": lang, "case": public(bad), "script_rc": rc,
+                               "script_output_tail": out.decode("latin-1"), "script_stderr": err.decode("latin-1")}, True)
+    res = evaluate(ctx, batches, name) if batches else {"mismatch": [], "violations": [], "script": set()}
     return batches, res
 
 
@@ -1443,7 +1702,10 @@ def verdict(ctx, batches, res, what="generated"):
             hi = max(len(c["obs"]["img_entry"]), len(c["obs"]["img_exit"]))
             ctx.violation("C09 violated (%s case): %s" % (what,
                           ("libmcount stored %d bytes past the frame's 1024-byte argument buffer" % (hi - 1024))
-                          if hi > 1024 else "replay does not show the values that were passed"),
+                          if hi > 1024 else
+                          "a script (uftrace script -S, python / lua) does not receive the values that were passed in "
+                          "ctx[\"args\"] / ctx[\"retval\"]" if (bi, i) in res.get("script", ()) else
+                          "replay does not show the values that were passed"),
                           {"mode": "values", "case": public(c), "observed": observed(c), "argbuf_extent": hi}, True)
     for b in batches:
         for c in b:
